@@ -18,7 +18,7 @@ import warnings
 
 import numpy as np
 
-from .. import tlc
+from .. import par, tlc
 from ..tlaparse import parse_dump
 
 CFG = """SPECIFICATION Spec
@@ -188,7 +188,7 @@ def replay(ctx, st, idx, sc, light=False):
                 if route == 'memory':
                     back = Regions.parse(tbl, format='fits')
                 else:
-                    path = os.path.join(sc, f'r{idx % 7}.fits')
+                    path = os.path.join(sc, f'r{os.getpid()}_{idx % 7}.fits')
                     lst.write(path, format='fits', overwrite=True)
                     back = Regions.read(path, format='fits')
             outs[route] = [project(r) for r in back]
@@ -279,6 +279,17 @@ def other_notations(ctx):
     ctx.traces += len(cases)
 
 
+_CFG = {}
+
+
+def _state_fn(rec, st, idx):
+    rec.case(json.dumps(st['items'], sort_keys=True), len(st['table']) > 0)
+    bad = replay(rec, st, idx, _CFG['sc'], light=_CFG['light'])
+    rec.traces += 1
+    if not bad and idx % 1499 == 1:
+        rec.sample({'items': st['items'], 'table': st['table'], 'back': st['back']})
+
+
 def run(ctx):
     quick = ctx.tier == 'quick'
     # design-level self-test: the code-shaped deviation must produce a counterexample in the model
@@ -297,16 +308,8 @@ def run(ctx):
                 ctx.violation(f'C12|model|{res.violated}', f'Fits.tla: invariant {res.violated} fails in the model', {'trace': res.trace[-1:]})
                 tlc.cleanup(res.workdir)
                 continue
-            n = 0
-            for idx, st in enumerate(parse_dump(res.dump_path, only='pc = "done"')):
-                if quick and idx % 2:
-                    continue
-                n += 1
-                ctx.case(json.dumps(st['items'], sort_keys=True), len(st['table']) > 0)
-                bad = replay(ctx, st, idx, sc, light=quick)
-                if not bad and n % 1499 == 1:
-                    ctx.sample({'items': st['items'], 'table': st['table'], 'back': st['back']})
-            ctx.traces += n
+            _CFG.update(sc=sc, light=quick)
+            n = par.pmap_dump(ctx, _state_fn, res.dump_path, only='pc = "done"', stride=1)
             ctx.note(f'replayed_{pool}_{maxlen}', n)
             tlc.cleanup(res.workdir)
         other_notations(ctx)
